@@ -19,11 +19,25 @@ func (c *FnVC) atAsserts(x *ssa.Call, name, tag string, args []string, atys []ty
 // atAssertsIn: the same for any event located in block b (calls, channel sends: `at call
 // send assert E` with arg0 the channel and arg1 the value sent).
 func (c *FnVC) atAssertsIn(b *ssa.BasicBlock, name, tag string, args []string, atys []types.Type) {
+	c.atAssertsGen(b, name, tag, args, atys, false, nil, nil)
+}
+
+// afterAsserts checks the `after call <callee>[#k] assert E` clauses: E is evaluated in the
+// state right after the call returned (callee's contract applied), and may additionally
+// mention result / result0, result1, ... - the values the call returned.
+func (c *FnVC) afterAsserts(b *ssa.BasicBlock, name, tag string, args []string, atys []types.Type, rv []string, rtys []types.Type) {
+	c.atAssertsGen(b, name, tag, args, atys, true, rv, rtys)
+}
+
+func (c *FnVC) atAssertsGen(b *ssa.BasicBlock, name, tag string, args []string, atys []types.Type, after bool, rv []string, rtys []types.Type) {
 	if c.ct == nil {
 		return
 	}
 	matched := 0
 	for _, at := range c.ct.At {
+		if at.After != after {
+			continue
+		}
 		if !strings.Contains(name, at.Callee) {
 			continue
 		}
@@ -36,24 +50,34 @@ func (c *FnVC) atAssertsIn(b *ssa.BasicBlock, name, tag string, args []string, a
 		for i := range args {
 			cenv[fmt.Sprintf("arg%d", i)] = envVal{args[i], atys[i]}
 		}
+		for i := range rv {
+			cenv[fmt.Sprintf("result%d", i)] = envVal{rv[i], rtys[i]}
+			if len(rv) == 1 {
+				cenv["result"] = envVal{rv[i], rtys[i]}
+			}
+		}
+		kind, word := "at", "at call"
+		if after {
+			kind, word = "after", "after call"
+		}
 		old := c.newEval(c.fn, c.paramEnv(), c.entry, nil)
 		ev := c.newEval(c.fn, cenv, copyHeap(c.cur), old)
 		for j, cj := range splitConjDeep(at.C.Expr, 0) {
 			t, err := ev.boolExpr(cj)
 			if err != nil {
-				c.errorf("%s: at call %s: %v", c.fnName(), at.Callee, err)
+				c.errorf("%s: %s %s: %v", c.fnName(), word, at.Callee, err)
 				continue
 			}
 			// the k-th clause matching this site gets its own name (two clauses on one call
 			// site must not share obligation names)
-			on := fmt.Sprintf("at@%s.c%d", tag, j+1)
+			on := fmt.Sprintf("%s@%s.c%d", kind, tag, j+1)
 			if clauseNo > 1 {
-				on = fmt.Sprintf("at@%s.a%d.c%d", tag, clauseNo, j+1)
+				on = fmt.Sprintf("%s@%s.a%d.c%d", kind, tag, clauseNo, j+1)
 			}
 			if at.C.Tag != "" {
-				on = fmt.Sprintf("at@%s.%s.c%d", tag, at.C.Tag, j+1)
+				on = fmt.Sprintf("%s@%s.%s.c%d", kind, tag, at.C.Tag, j+1)
 			}
-			c.obligeNamed("at", on, t, c.reach[b], "assertion at call of "+name+": "+exprString(cj), nil)
+			c.obligeNamed("at", on, t, c.reach[b], "assertion "+word+" of "+name+": "+exprString(cj), nil)
 			// a proved assertion is a fact for everything after it (as with the implicit
 			// safety obligations): it can serve as a cut / staging lemma
 			c.assume(imp(c.reach[b], t))
